@@ -173,6 +173,165 @@ pub fn f2(ctx: &Ctx) {
     ctx.nontrivial();
 }
 
+/// F5: polling the same iterator beyond its first error. The cloud is shifted through all 255
+/// aligned residues of the page payload (so that every packet end coincides with a page end in some
+/// file), one page of the cloud is damaged, and both iterators are polled 3x as often as the cloud
+/// has points: every delivered item must equal the item with the same index of the unaltered file.
+pub fn poll(ctx: &Ctx) {
+    let pad = ctx.pick("pad", 255) * 4;
+    let which = ctx.pick("iterator", 2);
+    // geometry 0: 17 points per packet (packets of 216 bytes, several per page);
+    // geometry 1: 300 points per packet (every byte stream of a packet is longer than a page)
+    let geo = ctx.pick("geometry", 2);
+    let mut c = cloud(xyz(F32), [100, 700][geo], 9);
+    c.cap = Some([17, 300][geo]);
+    let n = c.points.len();
+    let prog = Program { guid: "g".into(), ops: vec![Op::Blob(pattern(pad as u64, pad)), Op::Cloud(c)], ..Default::default() };
+    let dev = Dev::empty();
+    let h = dev.handle();
+    let rr = run_program(dev, &prog, &ExecOpts::default());
+    if rr.err.is_some() || rr.panic.is_some() {
+        ctx.machinery_error(format!("writer program failed: {:?} {:?}", rr.err, rr.panic.map(|p| p.1.msg)));
+        return;
+    }
+    let bytes = h.snapshot();
+    let rep = e57spec::decode::validate(&bytes, &Default::default());
+    let Some(cv) = rep.sections.iter().find(|s| s.kind == "cv") else {
+        ctx.machinery_error("no point section found by the independent decoder".to_string());
+        return;
+    };
+    let (p0, p1) = ((cv.phys_start / 1024) as usize, ((e57spec::page::log_to_phys(cv.log_start + cv.log_len.saturating_sub(1))) / 1024) as usize);
+    // item list of the unaltered file
+    let items = |b: &[u8], polls: usize| -> Result<Vec<Result<String, String>>, String> {
+        let mut r = E57Reader::new(Dev::new(b.to_vec())).map_err(|e| err_string(&e))?;
+        let pc = r.pointclouds()[0].clone();
+        let mut out = Vec::new();
+        if which == 0 {
+            let mut it = r.pointcloud_raw(&pc).map_err(|e| err_string(&e))?;
+            for _ in 0..polls {
+                match it.next() {
+                    None => break,
+                    Some(Ok(v)) => out.push(Ok(format!("{v:?}"))),
+                    Some(Err(e)) => out.push(Err(err_string(&e))),
+                }
+            }
+        } else {
+            let mut it = r.pointcloud_simple(&pc).map_err(|e| err_string(&e))?;
+            for _ in 0..polls {
+                match it.next() {
+                    None => break,
+                    Some(Ok(v)) => out.push(Ok(format!("{:?}", v.cartesian))),
+                    Some(Err(e)) => out.push(Err(err_string(&e))),
+                }
+            }
+        }
+        Ok(out)
+    };
+    let good = match guarded(|| items(&bytes, 3 * n + 8)) {
+        Ok(Ok(g)) if g.len() == n && g.iter().all(|x| x.is_ok()) => g,
+        other => {
+            ctx.machinery_error(format!("unaltered file does not deliver {n} points: {:?}", other.map(|r| r.map(|v| v.len())).map_err(|p| p.msg)));
+            return;
+        }
+    };
+    ctx.describe(|| format!("blob of {pad} bytes then {n} points in packets of {}; pages {p0}..={p1} of the cloud damaged one at a time; {} iterator polled {} times", [17, 300][geo], if which == 0 { "raw" } else { "simple" }, 3 * n + 8));
+    let mut h = Fnv::default();
+    for page in p0..=p1 {
+        for (off, bit) in [(510usize, 3u8), (1021, 0)] {
+            ctx.evals(1);
+            let mut d = bytes.clone();
+            d[page * 1024 + off] ^= 1 << bit;
+            match guarded(|| items(&d, 3 * n + 8)) {
+                Err(pi) => {
+                    ctx.violation(format!("{P}/panic/{}", pi.class()), format!("panic at {} ({}) polling page-{page}-damaged file (pad {pad})", pi.loc, pi.msg));
+                    return;
+                }
+                Ok(Err(_)) => h.u64(0),
+                Ok(Ok(got)) => {
+                    let mut oks = 0usize;
+                    let mut errs = 0usize;
+                    for (call, g) in got.iter().enumerate() {
+                        match g {
+                            Err(_) => errs += 1,
+                            Ok(v) => {
+                                if oks >= n || Ok(v.clone()) != good[oks] {
+                                    ctx.violation(
+                                        format!("{P}/data-from-damaged-file/poll-after-error/{}", if which == 0 { "raw" } else { "simple" }),
+                                        format!(
+                                            "pad {pad}, byte {off} of page {page} damaged: call {call} of the iterator (after {errs} errors) delivered {v} but item {oks} of the unaltered file is {}",
+                                            good.get(oks).map(|x| format!("{x:?}")).unwrap_or("<end>".into())
+                                        ),
+                                    );
+                                    return;
+                                }
+                                oks += 1;
+                            }
+                        }
+                    }
+                    if errs == 0 {
+                        ctx.violation(format!("{P}/damage-not-reported/poll"), format!("pad {pad}, page {page} damaged, but the iterator delivered {oks} items and no error"));
+                        return;
+                    }
+                    h.u64((oks * 1000 + errs) as u64);
+                }
+            }
+        }
+    }
+    ctx.observe_u64(h.0 ^ (pad as u64 * 4 + which as u64 * 2 + geo as u64));
+    ctx.nontrivial();
+}
+
+/// F7: whole-file validation on files of 255..770 pages (page counts around multiples of 256,
+/// where physical and logical sizes differ by whole pages): every page damaged in turn.
+pub fn big(ctx: &Ctx) {
+    const PAGES: [usize; 6] = [255, 256, 257, 300, 513, 770];
+    let fi = ctx.pick("file", PAGES.len());
+    let want = PAGES[fi];
+    let group = ctx.pick("page-group", want.div_ceil(16));
+    // one blob sized so that the file has exactly `want` pages (XML and header need < 2 pages)
+    let blob_len = (want - 2) * 1020 - 600;
+    let prog = Program { guid: "g".into(), ops: vec![Op::Blob(pattern(fi as u64 + 77, blob_len))], ..Default::default() };
+    let dev = Dev::empty();
+    let h = dev.handle();
+    let rr = run_program(dev, &prog, &ExecOpts::default());
+    let bytes = h.snapshot();
+    let pages = bytes.len() / 1024;
+    if rr.err.is_some() || rr.panic.is_some() || bytes.len() % 1024 != 0 || pages.abs_diff(want) > 1 {
+        ctx.machinery_error(format!("big file {fi}: wanted {want} pages, got {} bytes ({:?})", bytes.len(), rr.err));
+        return;
+    }
+    if let Err(e) = E57Reader::validate_crc(Dev::new(bytes.clone())) {
+        ctx.violation(format!("{P}/validate-crc-rejects-pristine"), format!("validate_crc fails on an unaltered file of {pages} pages: {}", err_string(&e)));
+        return;
+    }
+    ctx.describe(|| format!("file of {pages} pages; pages {}..{} damaged one at a time (payload bit, checksum bit); validate_crc must fail", group * 16, (group * 16 + 16).min(pages)));
+    let mut d = bytes;
+    for page in group * 16..(group * 16 + 16).min(pages) {
+        for (off, bit) in [((page * 37) % 1020, (page % 8) as u8), (1020 + page % 4, 7 - (page % 8) as u8)] {
+            ctx.evals(1);
+            d[page * 1024 + off] ^= 1 << bit;
+            let r = guarded(|| E57Reader::validate_crc(Dev::new(d.clone())).is_ok());
+            d[page * 1024 + off] ^= 1 << bit;
+            match r {
+                Err(pi) => {
+                    ctx.violation(format!("{P}/panic/{}", pi.class()), format!("panic at {} ({}) in validate_crc", pi.loc, pi.msg));
+                    return;
+                }
+                Ok(true) => {
+                    ctx.violation(
+                        format!("{P}/validate-crc-accepts-damage/big-file"),
+                        format!("validate_crc returned Ok for a file of {pages} pages although bit {bit} of byte {off} of page {page} is flipped"),
+                    );
+                    return;
+                }
+                Ok(false) => {}
+            }
+        }
+    }
+    ctx.observe_u64((fi * 1000 + group) as u64);
+    ctx.nontrivial();
+}
+
 /// F6 digest space: file bytes of writer programs + verdict vectors of damaged files; run once with
 /// the built-in CRC and once with the `crc32c` feature, the per-case observations must be identical
 pub fn f6(ctx: &Ctx) {
